@@ -656,14 +656,17 @@ class Interp(Engine):
             items = items[1:]
         else:
             out = self.new_dict(st, kind)
+        lit_keys = []
         for tag, a, b in items:
             if tag == "**":
-                self.dict_update(st, out, a, node)
+                self.dict_update(st, out, a, node, ground_keys=list(lit_keys))
             else:
-                self.dict_set(st, out, self.coerce(st, a, out.kind.k, node), b, node)
+                kk = self.coerce(st, a, out.kind.k, node)
+                lit_keys.append(kk.term)
+                self.dict_set(st, out, kk, b, node)
         return out
 
-    def dict_update(self, st, dst: SV, src: SV, node=None):
+    def dict_update(self, st, dst: SV, src: SV, node=None, ground_keys=()):
         """dst.update(src): pointwise merge (sizes: exact when src has one key, else axiomatised)."""
         if src.kind is KVal:
             src = self.coerce(st, src, KDict(KStr, KVal), node)
@@ -681,6 +684,13 @@ class Interp(Engine):
             srcv = self.coerce(st, SV(src.kind.v, srcv), dst.kind.v, node).term
         self.assume(st, qforall([kk], nh[kk] == z3.Or(ha[dst.term][kk], hsa[src.term][kk]), patterns=[nh[kk]]))
         self.assume(st, qforall([kk], nv[kk] == z3.If(hsa[src.term][kk], srcv, va[dst.term][kk]), patterns=[nv[kk]]))
+        # ground instances for keys known at this point (literal keys of a display): lets path feasibility see them
+        for gk in ground_keys:
+            sv_g = vsa[src.term][gk]
+            if src.kind.v != dst.kind.v:
+                sv_g = self.coerce(st, SV(src.kind.v, sv_g), dst.kind.v, node).term
+            st.assume(nh[gk] == z3.Or(ha[dst.term][gk], hsa[src.term][gk]))
+            st.assume(nv[gk] == z3.If(hsa[src.term][gk], sv_g, va[dst.term][gk]))
         nn = st.fresh("updn", z3.IntSort())
         self.assume(st, z3.And(nn >= na[dst.term], nn <= na[dst.term] + self.dict_size(st, src)))
         st.heap[h] = z3.Store(ha, dst.term, nh)
@@ -871,6 +881,12 @@ class Interp(Engine):
     def call_repo_function(self, st, fi: FuncInfo, args, kwargs, node):
         c = self.reg.contracts.get(fi.key)
         top = st.frames[0] if st.frames else None
+        if top is not None and top.contract is not None and fi.qualname in top.contract.inline_callees and not self.spec_mode:
+            from .contracts import Contract
+            synth = Contract(fi.file, fi.qualname, loops=top.contract.inline_callees[fi.qualname],
+                             types=(c.types if c is not None else None), locals=(c.locals if c is not None else None))
+            synth.inline_callees = top.contract.inline_callees
+            return self.inline_call(st, fi, args, kwargs, node, synth)
         # self-calls inside the class under verification: loop-free callees are inlined (their
         # contracts' invariants do not hold in the middle of the caller)
         if (c is not None and not c.inline and not self.spec_mode and top is not None and top.fi is not None
